@@ -9,6 +9,7 @@ import re
 from os.path import splitext
 
 from ural.ensure_protocol import ensure_protocol
+from ural.canonicalize_url import canonicalize_url
 from ural.infer_redirection import infer_redirection as resolve
 from ural.utils import (
     safe_qsl_iter,
@@ -257,15 +258,23 @@ def normalize_url(
         url = "http://" + url
 
     # Platform-specific magic
+    # NOTE: platform parsers work on the canonical url, else dot segments or
+    # escapes would change which route they see
     if platform_aware:
         if is_facebook_url(url):
-            p = parse_facebook_url(url)
+            try:
+                p = parse_facebook_url(canonicalize_url(url))
+            except ValueError:
+                p = None
 
             if p is not None:
                 url = p.url
 
         elif is_youtube_url(url):
-            url = normalize_youtube_url(url)
+            try:
+                url = normalize_youtube_url(canonicalize_url(url))
+            except ValueError:
+                pass
 
     # Parsing
     # NOTE: an invalid port only raises when accessed
